@@ -28,12 +28,15 @@ def make_inputs(L, p):
     return json.loads(json.dumps(sim._inputs, default=lambda o: int(o) if hasattr(o, '__int__') else str(o)))
 
 
-def entry(inputs, f, n_trials, rng):
+def entry(inputs, f, n_trials, rng, share=0.0):
     n_fail = int(round(f * n_trials))
     succ = [False] * n_fail + [True] * (n_trials - n_fail)
     rng.shuffle(succ)
     eff = [[0, 0, 0, 0] if s else [1, 0, 0, 0] for s in succ]
-    return {'inputs': inputs, 'results': {'effective_error': eff, 'success': succ, 'codespace': [True] * n_trials, 'n_runs': n_trials, 'wall_time': 1.0}}, n_fail
+    # a share of the failures (different from data point to data point) are trials that ended OUTSIDE the code space:
+    # they are failures all the same (success = False) and count in n_fail
+    cs = [True if s else (rng.random() >= share) for s in succ]
+    return {'inputs': inputs, 'results': {'effective_error': eff, 'success': succ, 'codespace': cs, 'n_runs': n_trials, 'wall_time': 1.0}}, n_fail
 
 
 def main():
@@ -64,18 +67,18 @@ def main():
         n_trials = 8000
         entries = []
         ok = True
-        for d in ds:
+        for di, d in enumerate(ds):
             for p in rates:
                 f = ansatz(p, d, pth, nu, A, B, C)
                 if not (0.005 < f < 0.95):
                     ok = False
-                entries.append((make_inputs(d, p), f))
+                entries.append((make_inputs(d, p), f, [0.1, 0.35, 0.6, 0.2][di % 4]))
         if not ok:
             continue
         plant = {'p_th': pth, 'nu': nu, 'A': A, 'B': B, 'C': C, 'distances': ds, 'rates': rates, 'n_trials': n_trials, 'orders': []}
         for oi, order in enumerate(['sorted', 'shuffled_files', 'paths_list', 'paths_list_reversed']):
             with tempfile.TemporaryDirectory() as tmp:
-                es = [entry(inp, f, n_trials, random.Random(seed * 1000 + pi))[0] for inp, f in entries]
+                es = [entry(inp, f, n_trials, random.Random(seed * 1000 + pi), sh)[0] for inp, f, sh in entries]
                 if order != 'sorted':
                     rng.shuffle(es)
                 nfiles = rng.choice([1, 3, len(ds)]) if order in ('sorted', 'shuffled_files') else len(ds)
